@@ -3,7 +3,7 @@
 
 use std::{
     cell::Cell,
-    collections::{HashMap, HashSet},
+    collections::{BTreeMap, HashMap, HashSet},
 };
 
 use crate::index::{SymbolIndex, SymbolVec};
@@ -450,7 +450,10 @@ impl Choice {
     fn make_choices_name_unique(choices: &mut [Choice]) {
         // Choices of a production must have unique names.
         // We need to update same names to include ord indexes.
-        let mut name_counts: HashMap<String, usize> = HashMap::new();
+        // Ordered map is used as renaming depends on the order of iteration
+        // (a renamed choice may get a name which is processed later) and the
+        // output must be deterministic.
+        let mut name_counts: BTreeMap<String, usize> = BTreeMap::new();
         for c in choices.iter() {
             name_counts
                 .entry(c.name.clone())
